@@ -137,6 +137,48 @@ Theorem C19_old_copy_refused_within_V : forall (lower : str -> str) c pol_of evs
 Proof. exact old_copy_refused_within_V. Qed.
 Print Assumptions C19_old_copy_refused_within_V.
 
+(* The sign-out page's form posts the request's own three fields back; they pass the gates again
+   until ts + 300. *)
+Theorem C19_page_then_post : forall (mac : str -> str -> str) secret p now1 now2 q s idp t,
+  q_method q = MGet -> q_cookie q = ACSealed s -> gates_pass mac secret now1 q = true ->
+  parse_int (q_ts q) = Some t -> (now2 - t <= 300)%Z ->
+  r_body (auth_sign_out mac secret p now1 q) = BPage 200%Z (as_email s) (q_uri q) (q_sig q) (q_ts q) /\
+  gates_pass mac secret now2 {| q_method := MPost; q_uri := q_uri q; q_sig := q_sig q; q_ts := q_ts q;
+                                q_parses := q_parses q; q_in_domain := q_in_domain q; q_cookie := ACSealed s; q_idp := idp |} = true.
+Proof. exact page_then_post. Qed.
+Print Assumptions C19_page_then_post.
+
+(* HISTORIES at the authenticator — any list of requests (any method, fields, cookies) under any IdP
+   answers: whenever some response cleared the cookie of a session, the IdP holds that session's token
+   revoked (invariant by induction); and a token is revoked at the IdP only through a valid confirmed
+   POST that presented the session owning it. *)
+Theorem C19_cleared_implies_revoked : forall (mac : str -> str -> str) secret evs p s,
+  In (p, s) (st_cleared (arun mac secret evs)) -> In (revoke_token p s) (st_revoked (arun mac secret evs)).
+Proof. exact cleared_implies_revoked. Qed.
+Print Assumptions C19_cleared_implies_revoked.
+
+Theorem C19_revoked_provenance : forall (mac : str -> str -> str) secret evs tok,
+  In tok (st_revoked (arun mac secret evs)) ->
+  exists e s, In e evs /\ q_cookie (e_req e) = ACSealed s /\ tok = revoke_token (e_provider e) s /\
+              q_method (e_req e) = MPost /\ gates_pass mac secret (e_now e) (e_req e) = true /\
+              revoke_ok (e_provider e) (q_idp (e_req e)) = true.
+Proof. exact revoked_provenance. Qed.
+Print Assumptions C19_revoked_provenance.
+
+(* Both services: after any authenticator history in which the user was signed out, every saved copy
+   of a proxy session of the same grant is refused at its next due check (back channel reporting the
+   IdP's state). *)
+Theorem C19_signed_out_copy_refused : forall (mac : str -> str -> str) secret evs p s (lower : str -> str) now c u host ps a,
+  In (p, s) (st_cleared (arun mac secret evs)) ->
+  grant_token p ps = revoke_token p s ->
+  (In (grant_token p ps) (st_revoked (arun mac secret evs)) -> revoked_answers a) ->
+  (s_valid_dl ps < now \/ s_refresh_dl ps < now)%Z ->
+  exists e, ao_err (authenticate lower now c u host (Sealed ps) a) = Some e /\
+            ao_cookie (authenticate lower now c u host (Sealed ps) a) = CCleared /\
+            ao_session (authenticate lower now c u host (Sealed ps) a) = None.
+Proof. exact signed_out_copy_refused. Qed.
+Print Assumptions C19_signed_out_copy_refused.
+
 (* The monitors of the correspondence check accept the model's own predictions (tie between the
    boolean specification applied to implementation observations and the theorems above). *)
 Theorem C19_monitor_accepts_model : forall (mac : str -> str -> str) o,
@@ -145,7 +187,7 @@ Proof. exact auth_monitor_accepts_model. Qed.
 Print Assumptions C19_monitor_accepts_model.
 
 Theorem C19_proxy_monitor_accepts_model : forall (mac : str -> str -> str) base secret secure origin_form host clock now,
-  mac_wf mac -> host_plain host = true -> host <> [] -> (clock <= now <= clock + 5)%Z ->
+  mac_wf mac -> host_plain host = true -> host <> [] -> (clock <= now <= clock + 60)%Z ->
   let r := proxy_sign_out mac base secret secure origin_form host now in
   proxy_holds mac {| po_base := base; po_secret := secret; po_secure := secure; po_origin_form := origin_form;
                      po_host := host; po_clock := clock; po_ts := now; po_status := p_status r;
